@@ -1128,6 +1128,10 @@ def emit_plain(u: Unit, kind, fpath, name, opts):
     if opts.get("mod") and opts.get("rootpaths") == "1":
         rw.r3m_super_paths(len(opts["mod"].split("::")))
         t = rw.t
+    if opts.get("fnptr") == "types":  # R28p (additive): function-pointer types that are only named -> FnPtr1<A, B> / FnPtr0<T>
+        import rewrites_fnptr
+        t, k = rewrites_fnptr.apply_types1(t, what, Unsupported)
+        rw.note("R28p", k)
     pre = ""
     if kind in ("struct", "enum"):
         keep = set(opts["keep_derive"].split(",")) if "keep_derive" in opts else KEEP_DERIVES_DEFAULT
@@ -1232,6 +1236,8 @@ def pub_fields(t: str) -> str:
     bo = find_body_open(m, 0)
     if bo < 0:
         # tuple struct: `struct X(A, B);` -> pub each field
+        if "(" not in m:
+            return t  # unit struct `struct X;` (additive: used to raise ValueError): no fields
         po = m.index("(")
         pc = match_close(m, po)
         inner = t[po + 1:pc]
@@ -1319,6 +1325,20 @@ def emit_fn(u: Unit, fpath, impl_pat, name, spec: FnSpec, reach: bool, mutate):
             if src._depth_at(a0, blk.body_open + 1) == 0:
                 ty = re.sub(r"\s+", " ", src.src[blk.body_open + 1 + mm.start(2):blk.body_open + 1 + mm.end(2)]).strip()
                 assoc.append((mm.group(1), ty))
+        if spec.opts.get("assoc_from"):
+            # R10c (opt-in `assoc_from=<impl header regex>`, additive; unit `pooltake`): associated types that the fn text names
+            # but that are DEFINED in a sibling impl block of the same file (`DerefMut::deref_mut` returns `&mut Self::Target`,
+            # `type Target` lives in `impl Deref`).  Read from the real source on every run; exactly one block must match.
+            rx_af = re.compile(spec.opts["assoc_from"])
+            sib = [b for b in src.impl_blocks(lo, hi) if rx_af.search(b.header)]
+            if len(sib) != 1:
+                raise ScanError("lost anchor: assoc_from /%s/ of %s (%d matches)" % (spec.opts["assoc_from"], fpath, len(sib)))
+            inner_af = src.m[sib[0].body_open + 1:sib[0].end - 1]
+            for mm in re.finditer(r"(?m)^[ \t]*type\s+([A-Za-z_][A-Za-z0-9_]*)\s*=\s*([^;]+);", inner_af):
+                a0 = sib[0].body_open + 1 + mm.start()
+                if src._depth_at(a0, sib[0].body_open + 1) == 0:
+                    assoc.append((mm.group(1), re.sub(r"\s+", " ", src.src[sib[0].body_open + 1 + mm.start(2):sib[0].body_open + 1 + mm.end(2)]).strip()))
+            rw.note("R10c")
         if assoc and spec.opts.get("keep_trait") != "1":
             k = 0
             for _round in range(3):  # definitions may mention other associated types
@@ -1332,6 +1352,22 @@ def emit_fn(u: Unit, fpath, impl_pat, name, spec: FnSpec, reach: bool, mutate):
                 rw.t = t
                 rw.r3m_super_paths(len(spec.opts["mod"].split("::")))
                 t = rw.t
+    if spec.opts.get("fnptr") == "types":
+        # R28p (opt-in `fnptr=types`, additive; vx/rewrites_fnptr.py): a function-pointer TYPE `fn(A) -> B` that is only
+        # named (e.g. inside an associated type substituted by R10b just above), never called -> prelude stand-in
+        # `FnPtr1<A, B>`.  Refused shapes: the fn is stubbed (signature as far as it could be rewritten).
+        import rewrites_fnptr
+        try:
+            t, k = rewrites_fnptr.apply_types1(t, what, Unsupported)
+            rw.note("R28p", k)
+        except Unsupported as e:
+            u.stubbed[key] = str(e)
+            emit_stub(u, t, header, spec, what, key, rw, rewritten=True)
+            u.fn_lines[key] = (line0, len(u.lines))
+            u.items.append({"kind": "fn", "name": name, "impl": header, "file": fpath, "rewrites": ["STUBBED: " + u.stubbed[key]],
+                            "sha": hashlib.sha256(text.encode()).hexdigest()[:12], "contracted": bool(spec.spec.strip()),
+                            "emitted_name": spec.opts.get("as", name), "stubbed": True})
+            return
     if spec.opts.get("vis") == "pub" and re.match(r"\s*fn\b", t):
         # opt-in `vis=pub` (unit `tlsfuture`, additive): a trait method is as visible as its trait; emitted as an
         # inherent method (R10) it has to be `pub` to be callable from another module of the unit
